@@ -239,6 +239,8 @@ var otherGrid = []others{
 	{X: 3, Y: -2, S: "héllo", B: true, L: []string{"a", "b"}, D: 1.5},
 	{X: 18, Y: 18, S: "abc", B: false, L: []string{"abc"}, D: -2},
 	{X: -5, Y: 7, S: "12", B: true, L: []string{"x", "admin", "12"}, D: 100},
+	// zero divisors and a string that is not a regular expression (C17: the reference errs, the generated code must not panic)
+	{X: 1, Y: 0, S: "(", B: true, L: []string{}, D: 0},
 }
 
 func (o others) lits() string {
